@@ -1,5 +1,123 @@
 /-
-C16 — property theorems (stub: no theorem stated yet, so no obligation is counted).
+C16 — Coordinate arithmetic (End, Len, Bin, CIGAR lengths, bin lists) matches the specification.
+PROPERTY THEOREMS ONLY.  Every statement is for all positions, all CIGARs (any number of operations,
+any lengths), all overlapping interval pairs and all CSI geometries with depth ≤ 10 (deeper schemes
+have bin numbers that do not fit the `uint32` the format stores).
 -/
+import Hts.Lemmas.Coord
+import Hts.Lemmas.Cigar
 namespace Hts.Props.C16
+open Hts.Model.Coord
+open Hts.Spec.Coord (refLen queryLen maxReach posAfter)
+
+/-- only the nine standard operations M I D N S H P = X (types 0..8) -/
+def Standard (c : List CigarOp) : Prop := ∀ co, co ∈ c → co.typ ≤ 8
+/-- the standard operations and the `B` extension (type 9) -/
+def StandardB (c : List CigarOp) : Prop := ∀ co, co ∈ c → co.typ ≤ 9
+
+theorem standard_standardB {c} (h : Standard c) : StandardB c := fun co hc => Nat.le_succ_of_le (h co hc)
+
+/-! ### CIGAR lengths -/
+
+/-- `Cigar.Lengths` = (Σ reference-consuming lengths, Σ query-consuming lengths), never a panic -/
+theorem lengths_spec (c : List CigarOp) (h : StandardB c) :
+    cigarLengths c = some (refLen c, queryLen c) := by
+  have := lengthsLoop_spec c 0 0 h
+  simpa [cigarLengths] using this
+
+/-! ### End and Len -/
+
+/-- a mapped read with a CIGAR over the standard operations ends at `pos + reference length` -/
+theorem end_spec (pos : Int) (c : List CigarOp) (hne : c ≠ []) (h : Standard c) :
+    recordEnd false pos c = some (pos + refLen c) := by
+  have hb := standard_standardB h
+  unfold recordEnd
+  have : c.isEmpty = false := by cases c <;> simp_all
+  simp only [this, Bool.false_or, Bool.false_eq_true, if_false]
+  rw [endLoop_spec c pos pos (Int.le_refl _) hb, maxReach_noB c pos h]
+  have hnn : pos ≤ pos + refLen c := by rw [← maxReach_noB c pos h]; exact maxReach_ge c pos
+  split <;> congr 1 <;> omega
+
+/-- with the `B` extension: the highest coordinate reached by any prefix of the CIGAR -/
+theorem end_spec_B (pos : Int) (c : List CigarOp) (hne : c ≠ []) (h : StandardB c) :
+    recordEnd false pos c = some (maxReach pos c) ∧
+      (∀ k, posAfter pos (c.take k) ≤ maxReach pos c) ∧ (∃ k, maxReach pos c = posAfter pos (c.take k)) := by
+  refine ⟨?_, maxReach_is_max c pos⟩
+  unfold recordEnd
+  have : c.isEmpty = false := by cases c <;> simp_all
+  simp only [this, Bool.false_or, Bool.false_eq_true, if_false]
+  rw [endLoop_spec c pos pos (Int.le_refl _) h]
+  have := maxReach_ge c pos
+  split <;> congr 1 <;> omega
+
+/-- unmapped reads and reads without a CIGAR are one base long (SAM §4.2.1) -/
+theorem end_unmapped (pos : Int) (c : List CigarOp) : recordEnd true pos c = some (pos + 1) := by
+  simp [recordEnd]
+
+theorem end_no_cigar (u : Bool) (pos : Int) : recordEnd u pos [] = some (pos + 1) := by
+  simp [recordEnd]
+
+theorem len_spec (pos : Int) (c : List CigarOp) (hne : c ≠ []) (h : Standard c) :
+    recordLen false pos c = some (refLen c) := by
+  unfold recordLen
+  rw [end_spec pos c hne h]
+  simp only [Option.map_some]
+  congr 1; omega
+
+/-! ### bins: model = specification on the indexable range -/
+
+theorem binFor_is_spec (beg end_ : Nat) (h1 : beg < end_) (h2 : end_ ≤ 2 ^ 29) :
+    binFor beg end_ = Hts.Spec.Coord.reg2bin beg end_ 14 5 := binFor_spec beg end_ h1 h2
+
+theorem overlappingBinsFor_is_spec (beg end_ : Nat) (h1 : beg < end_) (h2 : end_ ≤ 2 ^ 29) :
+    overlappingBinsFor beg end_ = Hts.Spec.Coord.reg2bins beg end_ 14 5 :=
+  overlappingBinsFor_spec beg end_ h1 h2
+
+/-- the running `uint32` level offset of csi.reg2bin equals (8^level - 1)/7 at every level -/
+theorem csi_reg2bin_is_spec (beg end_ ms d : Nat) (hd : d ≤ 10) (h1 : beg < end_)
+    (h2 : end_ ≤ 2 ^ (ms + 3 * d)) : reg2bin beg end_ ms d = Hts.Spec.Coord.reg2bin beg end_ ms d :=
+  reg2bin_spec beg end_ ms d hd h1 h2
+
+theorem csi_reg2bins_is_spec (beg end_ ms d : Nat) (hd : d ≤ 10) (h1 : beg < end_)
+    (h2 : end_ ≤ 2 ^ (ms + 3 * d)) : reg2bins beg end_ ms d = Hts.Spec.Coord.reg2bins beg end_ ms d :=
+  reg2bins_spec beg end_ ms d hd h1 h2
+
+/-- the record's bin is the specification's bin of [pos, end) -/
+theorem bin_spec (u mu : Bool) (pos : Nat) (c : List CigarOp) (e : Nat)
+    (hend : recordEnd u pos c = some (e : Int)) (h1 : pos < e) (h2 : e ≤ 2 ^ 29) :
+    recordBin u mu pos c = some (Hts.Spec.Coord.reg2bin pos e 14 5) := by
+  unfold recordBin
+  rw [hend]
+  simp only [Option.map_some]
+  rw [binFor_spec pos e h1 h2]
+
+/-! ### the bin of an interval is listed for every overlapping interval -/
+
+/-- for every scheme (specification level) -/
+theorem spec_bin_in_bins (beg1 end1 beg2 end2 ms d : Nat) (h1 : beg1 < end1) (h2 : beg2 < end2)
+    (hov1 : beg1 < end2) (hov2 : beg2 < end1) (hr : beg2 < 2 ^ (ms + 3 * d)) :
+    Hts.Spec.Coord.reg2bin beg1 end1 ms d ∈ Hts.Spec.Coord.reg2bins beg2 end2 ms d :=
+  Hts.Spec.Coord.bin_in_bins beg1 end1 beg2 end2 ms d h1 h2 hov1 hov2 hr
+
+/-- BAI: `BinFor` of one interval is in `OverlappingBinsFor` of every overlapping one -/
+theorem bai_bin_in_bins (beg1 end1 beg2 end2 : Nat) (h1 : beg1 < end1) (h2 : beg2 < end2)
+    (hov1 : beg1 < end2) (hov2 : beg2 < end1) (hr1 : end1 ≤ 2 ^ 29) (hr2 : end2 ≤ 2 ^ 29) :
+    binFor beg1 end1 ∈ overlappingBinsFor beg2 end2 := by
+  rw [binFor_spec beg1 end1 h1 hr1, overlappingBinsFor_spec beg2 end2 h2 hr2]
+  exact Hts.Spec.Coord.bin_in_bins beg1 end1 beg2 end2 14 5 h1 h2 hov1 hov2 (by omega)
+
+/-- CSI: `reg2bin` of one interval is in `reg2bins` of every overlapping one, for every geometry -/
+theorem csi_bin_in_bins (beg1 end1 beg2 end2 ms d : Nat) (hd : d ≤ 10) (h1 : beg1 < end1) (h2 : beg2 < end2)
+    (hov1 : beg1 < end2) (hov2 : beg2 < end1) (hr1 : end1 ≤ 2 ^ (ms + 3 * d)) (hr2 : end2 ≤ 2 ^ (ms + 3 * d)) :
+    reg2bin beg1 end1 ms d ∈ reg2bins beg2 end2 ms d := by
+  rw [reg2bin_spec beg1 end1 ms d hd h1 hr1, reg2bins_spec beg2 end2 ms d hd h2 hr2]
+  exact Hts.Spec.Coord.bin_in_bins beg1 end1 beg2 end2 ms d h1 h2 hov1 hov2 (by omega)
+
+/-! ### non-vacuity (tests) -/
+example : Standard [⟨0, 10⟩, ⟨2, 5⟩, ⟨1, 3⟩] := by intro co h; simp at h; rcases h with h | h | h <;> subst h <;> decide
+example : recordEnd false 100 [⟨0, 10⟩, ⟨2, 5⟩, ⟨1, 3⟩] = some 115 := by decide
+example : recordEnd false 100 [⟨0, 10⟩, ⟨9, 3⟩, ⟨0, 11⟩] = some 118 := by decide
+example : binFor 16000 16500 = 585 ∧ 585 ∈ overlappingBinsFor 16400 16401 := by decide
+example : reg2bin 0 2 0 2 = 1 ∧ 1 ∈ reg2bins 1 2 0 2 := by decide
+
 end Hts.Props.C16
